@@ -3,6 +3,7 @@ EXTENDS TextEnc, TLC, Json, IOUtils
 Tr == ndJsonDeserialize(IOEnv.TRACE)
 VARIABLE l
 Bad(why) == PrintT("BAD " \o ToJson([l |-> l, why |-> why]))
+Chk(cond, why) == IF cond THEN TRUE ELSE Bad(why)
 ChkAll(S, P(_), why) == LET f == {i \in S : ~P(i)} IN IF f = {} THEN TRUE ELSE Bad(why \o " [failing indices " \o ToString(f) \o "]")
 Init == l = 1
 Alph(ev) == IF ev.alph = 1 THEN UrlSafe ELSE Std
@@ -23,6 +24,11 @@ Good(ev, i) ==
 Step(ev) ==
   CASE ev.e = "Reset" -> TRUE
     [] ev.e = "b" -> LET G(i) == Good(ev, i) IN ChkAll(DOMAIN ev.ins, G, ev.fn \o ": differs from the definition")
+    [] ev.e = "declong" ->    \* a valid encoding of ev.len symbols with '=' written at position ev.pos[i] (and, for the
+                              \* two-symbol form, the position before): padding anywhere before the last group is invalid
+         /\ Chk(ev.base_ok = 1, "a long valid encoding did not decode back to its source")
+         /\ Chk(\A i \in DOMAIN ev.pos : ev.pos[i] < ev.len - 4 => ev.outs[i] = 1,
+                "padding in a group that is not the last one was accepted (or something other than invalid_argument was thrown)")
     [] OTHER -> Bad("no specification action for event " \o ev.e)
 Next == l <= Len(Tr) /\ l' = l + 1 /\ Step(Tr[l])
 Spec == Init /\ [][Next]_l
